@@ -3,7 +3,7 @@ from vlib.gentie import gentie_step
 
 CHECK = Check(
     "C10",
-    props_modules=["OW.Props.C10", "OW.Props.C10Sacramento"],
+    props_modules=["OW.Props.C10", "OW.Props.C10Sacramento", "OW.Props.Rounded.C10"],
     families=[
         # arithmetic only (one multiplication): bit-exact
         Family("K", rtol=None, args=["models=RunoffCoefficient", "prop=C10", "n=150"], label="K-exact"),
@@ -23,6 +23,7 @@ CHECK = Check(
     pre_steps=[gentie_step],
     level="proof",
     trusted=[
+        "OW.Props.Rounded.C10: the INEQUALITY clauses are also proved over rounded arithmetic — the same kernel definitions instantiated at RNum R (OW/Proofs/Rounded.lean: every operation = exact real result followed by a rounding R.rnd that is monotone, odd, idempotent and fixes 0; literals rounded once; min/max/comparisons exact), for EVERY such R. Interpretation (not a Lean term): IEEE-754 binary64 round-to-nearest (or toward zero) on computations without overflow/NaN is one such R; math.Pow/Exp/Log are idealised as correctly rounded (only their sign / range is used). Two concrete non-identity instances (grid truncation, grid rounding away from zero) are constructed as witnesses",
         "hand-written Lean kernel models OW/Kernels/{Coeff,GR4J,Simhyd,Surm,Sacramento}.lean of models/rr/*.go, tied to the "
         "code on every run by the K correspondence (real wrapper+kernel through sim.Catalog vs the compiled model; "
         "RunoffCoefficient bit-exact, the others 1e-9 relative + 1e-12 x line scale because Go's math.Pow/Tanh/Exp "
@@ -39,6 +40,7 @@ CHECK = Check(
         "components, prefix and end-of-run budgets on the implementation's outputs, tolerance 1e-9 x scale",
     ],
     assumptions=[
+        "rounded theorems (OW.Props.Rounded.C10): SURM lower bound 0 <= soil store needs EtOk (computed 10*s/smax <= s; false at smax = 10 exactly in binary64: real code returns store -8.9e-16 for smax=10, sms=7.657254516291418, PET=100); the upper bounds and runoff/quickflow/baseflow >= 0 need no such hypothesis; Simhyd needs Rep 1 and SimhydDivOk (computed sms/smsc <= 1 implies sms <= smsc: true for exact arithmetic, rounding away from zero and binary64 round-to-nearest, false for truncation); GR4J/Sacramento not restated under rounding",
         "RunoffCoefficient: 0 <= coeff <= 1",
         "Surm: fractions bfac, dseep, fimp, rfac in [0,1], coeff, fcFrac, thres >= 0, smax >= 10 mm (for smax < 10 "
         "the ET term min(10 sms/smax, pet) exceeds the store: reported as an observation)",
